@@ -543,6 +543,18 @@ static int compare_page_values(carquet_physical_type_t type,
                 return (x > y) - (x < y);
             }
             break;
+        case CARQUET_PHYSICAL_INT96:
+            if (a_len >= 12 && b_len >= 12) {
+                /* three 32-bit words, most significant last */
+                for (int i = 2; i >= 0; i--) {
+                    uint32_t x, y;
+                    memcpy(&x, (const uint8_t*)a + 4 * i, sizeof(x));
+                    memcpy(&y, (const uint8_t*)b + 4 * i, sizeof(y));
+                    if (x != y) return x > y ? 1 : -1;
+                }
+                return 0;
+            }
+            break;
         default:
             break;
     }
